@@ -368,7 +368,7 @@ PROPS["C04"] = {
             "groups mixing constant and dynamic members, attached QLayout.*/QTabWidget.* bindings, signal handlers) translated by the "
             "real pipeline in generate mode. c04-ledger (oracle): the generator's independent ledger must balance against the real "
             ".ui (own strict XML reader) and the real header (token scan) in both directions. c04-fault (oracle): the same document "
-            "with ONE fault out of a catalogue of 20 kinds planted at a random applicable object: an error diagnostic with the "
+            "with ONE fault out of a catalogue of 22 kinds planted at a random applicable object: an error diagnostic with the "
             "expected message lies inside the byte range of the planted binding, the document is not accepted, and for every 12th "
             "case the real CLI is run in a temp dir on [Good.qml, Faulty.qml, Other.qml] with a pre-existing faulty.ui: exit status 1, "
             "faulty.ui unchanged (content + mtime), uisupport_faulty.h not created, outputs of the two valid sources written, exact "
@@ -387,8 +387,9 @@ PROPS["C04"] = {
     "assumptions": [
         "layout pseudo-properties flow/columns/rows and consumed QLayout.* attached properties count as 'embedded' (they "
         "parameterise the cell computation; DESIGN.md §4)",
-        "clause 'never in neither' is refuted for `QAction { separator: false }` as the action's only binding (known finding: the "
-        "unedited suite pins this output in test_action_separator_false); the theorem carries the hypothesis NoSilentDrop",
+        "clause 'never in neither' is refuted for `QAction { separator: false }` as the action's only binding (F18, known finding: the "
+        "unedited suite pins test_action_separator_false; the ledger oracle fails on such documents and is matched by "
+        "KNOWN_FINDINGS); the theorem carries the hypothesis NoSilentDrop",
     ],
     "level_text": "proof (partial: one clause refuted): diagnosed_not_silently_dropped — in generate mode every scalar binding that entered "
                   "a code map is embedded in the form, or has update code, or has an error diagnostic attributed to it or to its group "
